@@ -762,6 +762,23 @@ fn run_api_family(ctx: &Ctx, report: &mut Report) {
 
 fn run(ctx: &Ctx, report: &mut Report) {
     crate::util::silence_panics();
+    if ctx.shard == 12 % ctx.of {
+        report.evaluations += 1;
+        report.count("old_format_store_files", 1);
+        let case = json!({"old_format_peers": 2});
+        match crate::util::catch(|| super::oldfmt::check(2, "C07")) {
+            Err(p) => report.violation("no_panic", json!({"old_format": true}), case, format!("panic: {p}"), 0),
+            Ok(bad) => {
+                for (o, d) in bad {
+                    if o == "MACHINERY" {
+                        report.machinery_error(d);
+                    } else {
+                        report.violation(o, json!({"old_format": true}), case.clone(), d, 0);
+                    }
+                }
+            }
+        }
+    }
     run_api_family(ctx, report);
     for actor in [false, true] {
         let depth = match (ctx.tier, actor) {
@@ -808,6 +825,11 @@ fn run(ctx: &Ctx, report: &mut Report) {
 }
 
 fn replay(case: &Value) -> anyhow::Result<(bool, String)> {
+    if let Some(n) = case.get("old_format_peers").and_then(|n| n.as_u64()) {
+        let bad = crate::util::catch(|| super::oldfmt::check(n as u8, "C07")).map_err(|p| anyhow::anyhow!(p))?;
+        let out: String = bad.iter().map(|(o, d)| format!("FAILED {o}: {d}\n")).collect();
+        return Ok((!bad.is_empty(), format!("store file of the redb 2.x format\n{out}")));
+    }
     if let Some(h) = case.get("api_hist") {
         let hist: Vec<ApiEv> = serde_json::from_value(h.clone())?;
         let salt = case["salt"].as_u64().unwrap_or(1);
